@@ -59,9 +59,15 @@ func (c Const) Validate(v bytes.Bytes) {
 		return
 	}
 
-	if v.Unquote().String() != c.nodeValue.Unquote().String() {
+	// A string never equals a literal of another kind that it happens to spell ("null" vs null).
+	if isQuoted(v) != isQuoted(c.nodeValue) || v.Unquote().String() != c.nodeValue.Unquote().String() {
 		panic(errs.ErrInvalidConst.F(c.nodeValue.String()))
 	}
+}
+
+func isQuoted(b bytes.Bytes) bool {
+	d := b.Data()
+	return len(d) > 0 && d[0] == '"'
 }
 
 func (c Const) ASTNode() schema.RuleASTNode {
